@@ -1,6 +1,11 @@
 import HbsModel.Registry
 import HbsModel.Lemmas.Write
 import HbsModel.Props.C08
+import HbsModel.Props.C01
+import HbsModel.Lemmas.CompileValue
+import HbsModel.Lemmas.PlainTags
+
+import HbsModel.Lemmas.RenderPlain
 /-
   C02  Data is escaped exactly once in {{ }} and never in {{{ }}} / {{& }}.
   (a) theorems over the *regenerated* table of `escape_html`, for every string;
@@ -308,5 +313,246 @@ theorem render_ends_with_escaping_on (reg : Registry) (root : Json) (fuel : Nat)
     (name : Option Str) (h : renderTemplate reg root fuel t { rootTemplate := name } out = .ok () rc' out') :
     rc'.disableEscape = false :=
   (C08.template_restores_frame reg root fuel t _ rc' out out' h).esc rfl
+
+end Hbs.C02
+
+/-! ### from source text to bytes: `{{v}}` between two texts is the value, escaped exactly once -/
+namespace Hbs.C02
+open Hbs RM
+
+/-- the compiled `{{v}}` writes `escape (text of data.v)` in every state a plain template can be in -/
+theorem value_writes_escaped (reg : Registry) (root j : Json) (rc0 : RC)
+    (hb : rc0.blocks = [{}]) (hi : rc0.indentString = none) (hmc : rc0.modifiedCtx = none) (hde : rc0.disableEscape = false)
+    (hl : assocGet rc0.localHelpers ['v'] = none) (hr : assocGet reg.helpers ['v'] = none)
+    (hsafe : Spec.indexSafe root [['v']] = true) (hj : Spec.descend root [['v']] = some j) :
+    WritesText reg root rc0 (.expr PlainText.valHT) (reg.escape j.render) := by
+  intro fuel rc out hq hf
+  have hpath : Path.new ['v'] [.named ['v']] = .relative [.named ['v']] ['v'] := rfl
+  have hev : evaluate2 root (.relative [.named ['v']] ['v']) rc out = .ok (.context j [['v']]) rc out := by
+    have hblocks : rc.blocks = [{}] := by rw [hq.blocks, hb]
+    have := C01.navigate_current_path_scope root {} [] ['v'] [] rc out (by simp [getInBlockParams, assocGet]) rfl (by simpa using hsafe)
+    simp only [C01.names, List.map_cons, List.map_nil] at this
+    simp only [evaluate2, RM.bind_def, RM.bnd_apply, RM.get_apply, hblocks, this, C01.blockValue, Spec.descend]
+    simp only [Option.bind] 
+    have hj' : (Spec.step root ['v']).bind (fun v' => Spec.descend v' []) = some j := by simpa [Spec.descend] using hj
+    simp [Spec.descend] at hj' ⊢
+    rw [hj']
+  have h := expr_path_escapes_once reg root fuel PlainText.valHT (.relative [.named ['v']] ['v']) rc out (.context j [['v']])
+    rfl rfl (by rw [hq]; exact hl) hr (by rw [hq]; exact hmc) (by rw [hq]; exact hde) hev rfl
+  rw [h]
+  exact indentAwareWrite_quiet rc0 hi _ rc out hq hf
+
+/-- `{{v}}` -/
+abbrev valueTag : Str := PlainText.valSrc
+
+/-- **render(L ++ {{v}} ++ R) = L ++ escape(text of data.v) ++ R** – from the source string to the bytes,
+    for EVERY text `L` that may stand before a tag, EVERY text `R` without `{{`, every data value and every
+    escape function: the value is escaped exactly once, the text around it (whitespace next to the tag
+    included: a value expression never triggers the standalone-line rule) is reproduced verbatim.
+    Through the grammar regenerated from src/grammar.pest (the tag's pairs are decided by the kernel with
+    the known-prefix evaluator), the loop of compile2 and the renderer. -/
+theorem value_between_texts_escaped_once (r : Registry) (fs : FS) (L R : Str) (data j : Json) (hdev : r.dev = false)
+    (hL : L = [] ∨ PlainText.TextBeforeTag L) (hR : PlainText.noOpen R)
+    (hnohelper : assocGet r.helpers ['v'] = none)
+    (hsafe : Spec.indexSafe data [['v']] = true) (hj : Spec.descend data [['v']] = some j) :
+    r.renderTemplate fs (L ++ valueTag ++ R) data = .ok (L ++ r.escape j.render ++ R) := by
+  unfold Registry.renderTemplate Registry.renderTemplateToWrite Registry.renderTemplateWithContextToWrite
+    Registry.compileForRenderTemplate
+  obtain ⟨m, hcomp⟩ := PlainText.compile_text_value_text L _ _ { preventIndent := r.preventIndent } hL (PlainText.textAfterTag_split R hR)
+  rw [← PlainText.split_ws R] at hcomp
+  rw [hcomp]
+  simp only [Registry.renderResolved, hdev, Bool.not_false, ↓reduceIte]
+  let ets : List (Elem × Str) := (if L = [] then [] else [(.raw L, L)]) ++ [(.expr PlainText.valHT, r.escape j.render)]
+    ++ (if R = [] then [] else [(.raw R, R)])
+  have hel : (PlainText.leftT L L).elements ++ [Elem.expr PlainText.valHT] ++ (if R = [] then [] else [Elem.raw R]) = ets.map (·.1) := by
+    simp only [ets]
+    by_cases hLe : L = [] <;> by_cases hRe : R = [] <;> simp [hLe, hRe, PlainText.leftT, Tmpl.empty, Tmpl.elements]
+  have htxt : (ets.map (·.2)).flatten = L ++ r.escape j.render ++ R := by
+    simp only [ets]
+    by_cases hLe : L = [] <;> by_cases hRe : R = [] <;> simp [hLe, hRe]
+  rw [hel]
+  have hw : ∀ p ∈ ets, WritesText r data { ({ rootTemplate := none } : RC) with currentTemplate := none } p.1 p.2 := by
+    intro p hp
+    simp only [ets, List.mem_append, List.mem_singleton] at hp
+    rcases hp with (hp | rfl) | hp
+    · split at hp
+      · simp at hp
+      · simp at hp; subst hp; exact writes_raw r data _ rfl L
+    · exact value_writes_escaped r data j _ rfl rfl rfl rfl rfl hnohelper hsafe hj
+    · split at hp
+      · simp at hp
+      · simp at hp; subst hp; exact writes_raw r data _ rfl R
+  have hlen : ets.length + 10 ≤ renderFuel := by
+    have h1 : (if L = [] then [] else [((Elem.raw L, L) : Elem × Str)]).length ≤ 1 := by split <;> simp
+    have h2 : (if R = [] then [] else [((Elem.raw R, R) : Elem × Str)]).length ≤ 1 := by split <;> simp
+    simp only [ets, List.length_append, List.length_singleton]
+    have : renderFuel = 4000 := rfl
+    omega
+  have := render_writes_template r data none ets m { rootTemplate := none } hlen hw
+  simp only [Tmpl.name] at this ⊢
+  rw [this, htxt]
+
+/-- non-vacuity: data `{"v": "<b>"}` and surrounding text with lone braces and whitespace next to the tag -/
+example : Spec.indexSafe (.obj (JObj.ofList [(['v'], Json.str ['<', 'b', '>'])])) [['v']] = true
+    ∧ Spec.descend (.obj (JObj.ofList [(['v'], Json.str ['<', 'b', '>'])])) [['v']] = some (Json.str ['<', 'b', '>'])
+    ∧ PlainText.TextBeforeTag ['a', '{', ' ', '\n', ' '] := by
+  refine ⟨by rfl, by rfl, ⟨by simp [PlainText.noOpen], by simp, by simp⟩⟩
+
+/-! ### any number of value tags – `{{v}}`, `{{{v}}}`, `{{&v}}` in any mix – between texts -/
+
+/-- the compiled `{{{v}}}` / `{{&v}}` writes the text of data.v as it is, in every state a plain template can be in,
+    and leaves escaping on -/
+theorem html_value_writes_raw (reg : Registry) (root j : Json) (rc0 : RC)
+    (hb : rc0.blocks = [{}]) (hi : rc0.indentString = none) (hmc : rc0.modifiedCtx = none) (hde : rc0.disableEscape = false)
+    (hl : assocGet rc0.localHelpers ['v'] = none) (hr : assocGet reg.helpers ['v'] = none)
+    (hsafe : Spec.indexSafe root [['v']] = true) (hj : Spec.descend root [['v']] = some j) :
+    WritesText reg root rc0 (.html PlainText.valHT) j.render := by
+  intro fuel rc out hq hf
+  have hev : ∀ rc', rc'.blocks = rc.blocks → evaluate2 root (.relative [.named ['v']] ['v']) rc' out = .ok (.context j [['v']]) rc' out := by
+    intro rc' hbl
+    have hblocks : rc'.blocks = [{}] := by rw [hbl, hq.blocks, hb]
+    have := C01.navigate_current_path_scope root {} [] ['v'] [] rc' out (by simp [getInBlockParams, assocGet]) rfl (by simpa using hsafe)
+    simp only [C01.names, List.map_cons, List.map_nil] at this
+    simp only [evaluate2, RM.bind_def, RM.bnd_apply, RM.get_apply, hblocks, this, C01.blockValue, Spec.descend]
+    simp only [Option.bind]
+    have hj' : (Spec.step root ['v']).bind (fun v' => Spec.descend v' []) = some j := by simpa [Spec.descend] using hj
+    simp [Spec.descend] at hj' ⊢
+    rw [hj']
+  have h := html_never_escapes reg root fuel PlainText.valHT (.relative [.named ['v']] ['v']) rc out (.context j [['v']])
+    rfl rfl (by rw [hq]; exact hl) hr (by rw [hq]; exact hmc) hev rfl
+  rw [h]
+  -- escaping off … the write … escaping on again
+  have hq' : Quiet { rc0 with disableEscape := true } { rc with disableEscape := true } := by
+    unfold Quiet at *; rw [hq]
+  obtain ⟨rc1, out1, hw, hq1, hf1, ht1⟩ := indentAwareWrite_quiet { rc0 with disableEscape := true } hi j.render
+    { rc with disableEscape := true } out hq' hf
+  refine ⟨{ rc1 with disableEscape := false }, out1, ?_, ?_, hf1, ht1⟩
+  · simp only [RM.escOffReset, RM.bracket_apply]
+    have : SJ.asJson (.context j [['v']]) = j := rfl
+    rw [this, hw]
+  · unfold Quiet at *
+    rw [hq1]
+    simp [hde]
+
+/-- the three spellings of a value tag -/
+inductive Spelling where
+  | dbl      -- {{v}}
+  | triple   -- {{{v}}}
+  | amp      -- {{&v}}
+deriving DecidableEq
+
+def Spelling.ctag : Spelling → PlainText.CTag
+  | .dbl => PlainText.tagValue
+  | .triple => PlainText.tagTriple
+  | .amp => PlainText.tagAmp
+
+/-- what the tag writes for the value `j` under the escape function `esc` -/
+def Spelling.output (esc : Str → Str) (j : Json) : Spelling → Str
+  | .dbl => esc j.render
+  | _ => j.render
+
+def ctags (more : List (Spelling × Str)) : List (PlainText.CTag × Str) := more.map (fun q => (q.1.ctag, q.2))
+
+/-- `S0 T1 S1 T2 … Tk Sk` with every `Ti` one of `{{v}}`, `{{{v}}}`, `{{&v}}` -/
+def textsAndTags (s0 : Str) (more : List (Spelling × Str)) : Str := PlainText.tailSrc s0 (PlainText.ptags (ctags more))
+/-- every text but the last may stand in front of a tag (no `{{` inside, no `{` or `\` at its end); the last has no `{{` -/
+def TextsOk (s0 : Str) (more : List (Spelling × Str)) : Prop := PlainText.TextsOk s0 (PlainText.ptags (ctags more))
+
+example : textsAndTags ['a'] [(.dbl, [' ']), (.triple, ['b']), (.amp, [])]
+    = ['a', '{', '{', 'v', '}', '}', ' ', '{', '{', '{', 'v', '}', '}', '}', 'b', '{', '{', '&', 'v', '}', '}'] := by decide
+
+/-- the elements with the text each writes -/
+def tailEts (esc : Str → Str) (j : Json) : Str → List (Spelling × Str) → List (Elem × Str)
+  | s, [] => if s = [] then [] else [(.raw s, s)]
+  | s, (sp, s') :: more => (if s = [] then [] else [(.raw s, s)]) ++ [(sp.ctag.el, sp.output esc j)] ++ tailEts esc j s' more
+
+theorem tailEts_elems (esc : Str → Str) (j : Json) : ∀ (more : List (Spelling × Str)) (s : Str),
+    (tailEts esc j s more).map (·.1) = PlainText.tailElems s (ctags more) := by
+  intro more
+  induction more with
+  | nil => intro s; by_cases h : s = [] <;> simp [tailEts, ctags, PlainText.tailElems, h]
+  | cons q more ih =>
+    intro s
+    obtain ⟨sp, s'⟩ := q
+    have := ih s'
+    simp only [ctags] at this ⊢
+    by_cases h : s = [] <;> simp [tailEts, PlainText.tailElems, h, this]
+
+theorem tailEts_text (esc : Str → Str) (j : Json) : ∀ (more : List (Spelling × Str)) (s : Str),
+    ((tailEts esc j s more).map (·.2)).flatten = s ++ (more.map (fun q => q.1.output esc j ++ q.2)).flatten := by
+  intro more
+  induction more with
+  | nil => intro s; by_cases h : s = [] <;> simp [tailEts, h]
+  | cons q more ih => intro s; obtain ⟨sp, s'⟩ := q; by_cases h : s = [] <;> simp [tailEts, h, ih]
+
+theorem tailEts_length (esc : Str → Str) (j : Json) : ∀ (more : List (Spelling × Str)) (s : Str),
+    (tailEts esc j s more).length ≤ 2 * more.length + 1 := by
+  intro more
+  induction more with
+  | nil => intro s; by_cases h : s = [] <;> simp [tailEts, h]
+  | cons q more ih => intro s; obtain ⟨sp, s'⟩ := q; have := ih s'; by_cases h : s = [] <;> simp [tailEts, h] <;> omega
+
+/-- **render(S0 T1 S1 … Tk Sk) = S0 ++ out(T1) ++ S1 ++ … ++ out(Tk) ++ Sk**  where `out({{v}}) = escape(text of data.v)`
+    and `out({{{v}}}) = out({{&v}}) = text of data.v`:  for ANY NUMBER of value tags in ANY MIX of the three spellings,
+    every admissible choice of the texts between them (whitespace-only texts between two tags included – pest's
+    implicit skipping produces no pair for them and compile2 puts them back), every data value and every escape
+    function.  Each `{{v}}` is escaped exactly once, no `{{{v}}}` / `{{&v}}` is ever escaped – also when it follows
+    or precedes a `{{v}}` – and every character of template text comes out, in order.  From the source string through
+    the regenerated grammar, compile2 and the renderer.  (The bound on the number of tags is the model's render fuel.) -/
+theorem texts_and_tags_render (r : Registry) (fs : FS) (s0 : Str) (more : List (Spelling × Str)) (data j : Json) (hdev : r.dev = false)
+    (hok : TextsOk s0 more) (hmany : 2 * more.length + 12 ≤ renderFuel)
+    (hnohelper : assocGet r.helpers ['v'] = none)
+    (hsafe : Spec.indexSafe data [['v']] = true) (hj : Spec.descend data [['v']] = some j) :
+    r.renderTemplate fs (textsAndTags s0 more) data
+      = .ok (s0 ++ (more.map (fun q => q.1.output r.escape j ++ q.2)).flatten) := by
+  unfold Registry.renderTemplate Registry.renderTemplateToWrite Registry.renderTemplateWithContextToWrite
+    Registry.compileForRenderTemplate
+  have hTs : ∀ q ∈ PlainText.ptags (ctags more), PlainText.TagAt q.1.src 100 q.1.toks := by
+    intro q hq
+    simp only [PlainText.ptags, ctags, List.map_map, List.mem_map] at hq
+    obtain ⟨⟨sp, s⟩, _, rfl⟩ := hq
+    cases sp
+    · exact PlainText.tagValue_at
+    · exact PlainText.tagTriple_at
+    · exact PlainText.tagAmp_at
+  obtain ⟨m, hcomp⟩ := PlainText.compile_texts_tags 100 (by decide) { preventIndent := r.preventIndent } s0 (ctags more) hTs hok
+  unfold textsAndTags
+  rw [hcomp]
+  simp only [Registry.renderResolved, hdev, Bool.not_false, ↓reduceIte]
+  rw [← tailEts_elems r.escape j more s0]
+  have hgen : ∀ (more : List (Spelling × Str)) (s : Str), ∀ p ∈ tailEts r.escape j s more,
+      WritesText r data { ({ rootTemplate := none } : RC) with currentTemplate := none } p.1 p.2 := by
+    intro more
+    induction more with
+    | nil =>
+      intro s p hp
+      simp only [tailEts] at hp
+      split at hp
+      · simp at hp
+      · simp at hp; subst hp; exact writes_raw r data _ rfl s
+    | cons q more ih =>
+      intro s p hp
+      obtain ⟨sp, s'⟩ := q
+      simp only [tailEts, List.mem_append, List.mem_singleton] at hp
+      rcases hp with (hp | rfl) | hp
+      · split at hp
+        · simp at hp
+        · simp at hp; subst hp; exact writes_raw r data _ rfl s
+      · cases sp
+        · exact value_writes_escaped r data j _ rfl rfl rfl rfl rfl hnohelper hsafe hj
+        · exact html_value_writes_raw r data j _ rfl rfl rfl rfl rfl hnohelper hsafe hj
+        · exact html_value_writes_raw r data j _ rfl rfl rfl rfl rfl hnohelper hsafe hj
+      · exact ih s' p hp
+  have hlen : (tailEts r.escape j s0 more).length + 10 ≤ renderFuel := by
+    have := tailEts_length r.escape j more s0; omega
+  have := render_writes_template r data none (tailEts r.escape j s0 more) m { rootTemplate := none } hlen (hgen more s0)
+  simp only [Tmpl.name] at this ⊢
+  rw [this, tailEts_text]
+
+/-- non-vacuity: `a {{v}}  {{{v}}}b{` – a whitespace-only text between two tags, lone braces -/
+example : TextsOk ['a', ' '] [(.dbl, [' ', ' ']), (.triple, ['b', '{'])] := by
+  refine ⟨Or.inr ⟨by simp [PlainText.noOpen], by simp, by simp⟩, Or.inr ⟨by simp [PlainText.noOpen], by simp, by simp⟩, ?_⟩
+  show PlainText.noOpen ['b', '{']
+  simp [PlainText.noOpen]
 
 end Hbs.C02
